@@ -30,7 +30,30 @@ func TestReplay(t *testing.T)       { vk.TestReplay(t) }
 
 // ---- (a) fidelity ---------------------------------------------------------------------------------------
 
-type KV struct{ K, V string }
+type KV struct {
+	K, V string
+	Op   string `json:",omitempty"` // "" = Add..., set = Set... (replaces every earlier value of the key), del = Del...
+}
+
+// fold applies the configuration calls in order to a multimap and returns the entries that remain
+func fold(ops []KV) []KV {
+	var out []KV
+	for _, o := range ops {
+		if o.Op == "set" || o.Op == "del" {
+			kept := out[:0:0]
+			for _, e := range out {
+				if e.K != o.K {
+					kept = append(kept, e)
+				}
+			}
+			out = kept
+		}
+		if o.Op != "del" {
+			out = append(out, KV{K: o.K, V: o.V})
+		}
+	}
+	return out
+}
 
 type Fidelity struct {
 	CQuery, RQuery         []KV
@@ -142,10 +165,21 @@ func checkFidelity(c Fidelity) vk.Verdict {
 			cl.SetBaseURL("http://example.com")
 		}
 		for _, kv := range c.CQuery {
-			cl.AddParam(kv.K, kv.V)
+			switch kv.Op {
+			case "set":
+				cl.SetParam(kv.K, kv.V)
+			case "del":
+				cl.DelParams(kv.K)
+			default:
+				cl.AddParam(kv.K, kv.V)
+			}
 		}
 		for _, kv := range c.CHeader {
-			cl.AddHeader("X-T-"+kv.K, kv.V)
+			if kv.Op == "set" {
+				cl.SetHeader("X-T-"+kv.K, kv.V)
+			} else {
+				cl.AddHeader("X-T-"+kv.K, kv.V)
+			}
 		}
 		for _, kv := range c.CCookie {
 			cl.SetCookie(kv.K, kv.V)
@@ -164,10 +198,21 @@ func checkFidelity(c Fidelity) vk.Verdict {
 		}
 		r := cl.R()
 		for _, kv := range c.RQuery {
-			r.AddParam(kv.K, kv.V)
+			switch kv.Op {
+			case "set":
+				r.SetParam(kv.K, kv.V)
+			case "del":
+				r.DelParams(kv.K)
+			default:
+				r.AddParam(kv.K, kv.V)
+			}
 		}
 		for _, kv := range c.RHeader {
-			r.AddHeader("X-T-"+kv.K, kv.V)
+			if kv.Op == "set" {
+				r.SetHeader("X-T-"+kv.K, kv.V)
+			} else {
+				r.AddHeader("X-T-"+kv.K, kv.V)
+			}
 		}
 		for _, kv := range c.RCookie {
 			r.SetCookie(kv.K, kv.V)
@@ -189,11 +234,25 @@ func checkFidelity(c Fidelity) vk.Verdict {
 			r.SetRawBody([]byte(c.Body))
 		case "form":
 			for _, kv := range c.Form {
-				r.AddFormData(kv.K, kv.V)
+				switch kv.Op {
+				case "set":
+					r.SetFormData(kv.K, kv.V)
+				case "del":
+					r.DelFormData(kv.K)
+				default:
+					r.AddFormData(kv.K, kv.V)
+				}
 			}
 		case "multipart":
 			for _, kv := range c.Form {
-				r.AddFormData(kv.K, kv.V)
+				switch kv.Op {
+				case "set":
+					r.SetFormData(kv.K, kv.V)
+				case "del":
+					r.DelFormData(kv.K)
+				default:
+					r.AddFormData(kv.K, kv.V)
+				}
 			}
 			for _, f := range c.Files {
 				r.AddFileWithReader(f.K, nopCloser{strings.NewReader(f.V)})
@@ -245,10 +304,10 @@ func checkFidelity(c Fidelity) vk.Verdict {
 	if c.RRef != "" {
 		w.Referer = c.RRef
 	}
-	for _, kv := range append(append([]KV{}, c.CQuery...), c.RQuery...) {
+	for _, kv := range append(fold(c.CQuery), fold(c.RQuery)...) {
 		w.Query = append(w.Query, kv.K+"="+kv.V)
 	}
-	for _, kv := range append(append([]KV{}, c.CHeader...), c.RHeader...) {
+	for _, kv := range append(fold(c.CHeader), fold(c.RHeader)...) {
 		w.Headers = append(w.Headers, canon("X-T-"+kv.K)+"="+kv.V)
 	}
 	ck := map[string]string{}
@@ -265,7 +324,7 @@ func checkFidelity(c Fidelity) vk.Verdict {
 	case "raw":
 		w.Body = c.Body
 	case "form", "multipart":
-		for _, kv := range c.Form {
+		for _, kv := range fold(c.Form) {
 			w.Form = append(w.Form, kv.K+"="+kv.V)
 		}
 		if c.BodyKind == "multipart" {
@@ -361,11 +420,26 @@ var (
 	pval = rapid.StringMatching(`[A-Za-z0-9_~-]{1,8}`)
 )
 
+// withOps turns some of the Add calls into Set / Del calls (hasDel: the collection has a Del method)
+func withOps(t *rapid.T, label string, in []KV, hasDel bool) []KV {
+	if rapid.IntRange(0, 2).Draw(t, label+"ops") != 0 {
+		return in
+	}
+	pool := []string{"", "set", "set"}
+	if hasDel {
+		pool = append(pool, "del")
+	}
+	for i := range in {
+		in[i].Op = rapid.SampledFrom(pool).Draw(t, label+"op")
+	}
+	return in
+}
+
 func kvs(t *rapid.T, label string, g *rapid.Generator[string], keys []string) []KV {
 	var out []KV
 	n := rapid.IntRange(0, 3).Draw(t, label+"n")
 	for i := 0; i < n; i++ {
-		out = append(out, KV{rapid.SampledFrom(keys).Draw(t, label+"k"), g.Draw(t, label+"v")})
+		out = append(out, KV{K: rapid.SampledFrom(keys).Draw(t, label+"k"), V: g.Draw(t, label+"v")})
 	}
 	return out
 }
@@ -384,7 +458,8 @@ func uniqKeys(in []KV) []KV {
 
 func genFidelity(t *rapid.T) Fidelity {
 	keys := []string{"k1", "k2", "k3"}
-	c := Fidelity{CQuery: kvs(t, "cq", qval, keys), RQuery: kvs(t, "rq", qval, keys), CHeader: kvs(t, "ch", hval, keys), RHeader: kvs(t, "rh", hval, keys),
+	c := Fidelity{CQuery: withOps(t, "cq", kvs(t, "cq", qval, keys), true), RQuery: withOps(t, "rq", kvs(t, "rq", qval, keys), true),
+		CHeader: withOps(t, "ch", kvs(t, "ch", hval, keys), false), RHeader: withOps(t, "rh", kvs(t, "rh", hval, keys), false),
 		CCookie: uniqKeys(kvs(t, "cc", cval, keys)), RCookie: uniqKeys(kvs(t, "rc", cval, keys)),
 		Method: rapid.SampledFrom([]string{"POST", "PUT", "PATCH"}).Draw(t, "method"), BaseURL: rapid.Bool().Draw(t, "base"), Twice: rapid.IntRange(0, 3).Draw(t, "twice") == 0}
 	if rapid.Bool().Draw(t, "cua") {
@@ -414,15 +489,15 @@ func genFidelity(t *rapid.T) Fidelity {
 	case "raw", "json":
 		c.Body = qval.Draw(t, "body")
 	case "form":
-		c.Form = kvs(t, "f", qval, keys)
-		if len(c.Form) == 0 {
+		c.Form = withOps(t, "f", kvs(t, "f", qval, keys), true)
+		if len(fold(c.Form)) == 0 {
 			c.BodyKind = "none"
 		}
 	case "multipart":
-		c.Form = kvs(t, "f", qval, keys)
-		c.Files = []KV{{"a.txt", qval.Draw(t, "filea")}}
+		c.Form = withOps(t, "f", kvs(t, "f", qval, keys), true)
+		c.Files = []KV{{K: "a.txt", V: qval.Draw(t, "filea")}}
 		if rapid.Bool().Draw(t, "twofiles") {
-			c.Files = append(c.Files, KV{"b.bin", qval.Draw(t, "fileb")})
+			c.Files = append(c.Files, KV{K: "b.bin", V: qval.Draw(t, "fileb")})
 		}
 	}
 	return c
@@ -452,7 +527,12 @@ type JarCase struct {
 }
 
 // every key has one fixed cookie path, so the identity of a cookie (key, path) is never ambiguous
-var keyPath = map[string]string{"k1": "/", "k2": "/a", "k3": "/b", "k4": "/a/b"}
+// (k5 carries no Path attribute at all; responses that set it are always requested on pathlessAt. Which request paths
+// such a cookie applies to is not something the statement settles, so it is never required, only allowed - but it is
+// still one cookie: at most once, and only with its latest value)
+var keyPath = map[string]string{"k1": "/", "k2": "/a", "k3": "/b", "k4": "/a/b", "k5": ""}
+
+const pathlessAt = "/c/d"
 
 type mck struct {
 	val   string
@@ -487,7 +567,9 @@ func checkJar(c JarCase) vk.Verdict {
 		ck := fasthttp.AcquireCookie()
 		ck.SetKey(jc.Key)
 		ck.SetValue(jc.Val)
-		ck.SetPath(keyPath[jc.Key])
+		if keyPath[jc.Key] != "" {
+			ck.SetPath(keyPath[jc.Key])
+		}
 		switch jc.Exp {
 		case "far":
 			ck.SetExpire(time.Now().Add(time.Hour))
@@ -534,7 +616,11 @@ func checkJar(c JarCase) vk.Verdict {
 					switch jc.Exp {
 					case "maxage0", "maxage-1", "maxagefar":
 						ma := map[string]string{"maxage0": "0", "maxage-1": "-1", "maxagefar": "3600"}[jc.Exp]
-						ctx.Response().Header.Add("Set-Cookie", fmt.Sprintf("%s=%s; Max-Age=%s; Path=%s", jc.Key, jc.Val, ma, keyPath[jc.Key])) // one header line per cookie
+						line := fmt.Sprintf("%s=%s; Max-Age=%s", jc.Key, jc.Val, ma)
+						if keyPath[jc.Key] != "" {
+							line += "; Path=" + keyPath[jc.Key]
+						}
+						ctx.Response().Header.Add("Set-Cookie", line) // one header line per cookie
 						continue
 					}
 					ck := mkCookie(jc)
@@ -578,12 +664,16 @@ func checkJar(c JarCase) vk.Verdict {
 			var must, may []string
 			now := time.Now()
 			for key, m := range model[hostKey(op.Host)] {
-				if !pathMatches(keyPath[key], op.Path) {
+				if keyPath[key] != "" && !pathMatches(keyPath[key], op.Path) {
 					continue
 				}
 				e := key + "=" + m.val
 				switch m.exp {
 				case "session", "far":
+					if keyPath[key] == "" {
+						may = append(may, e)
+						continue
+					}
 					must = append(must, e)
 				case "shortparse":
 					if now.Sub(m.setAt) < shortLife+12*time.Millisecond+time.Second {
@@ -677,7 +767,7 @@ func genJar(t *rapid.T) JarCase {
 	c := JarCase{Related: rapid.IntRange(0, 5).Draw(t, "related") == 0}
 	hosts := []string{"one.test", "two.test", "one.test:8080", "three.test:81"}
 	paths := []string{"/", "/a", "/b", "/c"}
-	keys := []string{"k1", "k2", "k3"}
+	keys := []string{"k1", "k2", "k3", "k5"}
 	if c.Related {
 		paths = append(paths, "/a/b", "/a/b/c", "/a/x")
 		keys = append(keys, "k4")
@@ -731,6 +821,11 @@ func genJar(t *rapid.T) JarCase {
 					}
 				}
 				op.Cookies = uniq
+				for _, jc := range op.Cookies {
+					if keyPath[jc.Key] == "" {
+						op.Path = pathlessAt
+					}
+				}
 			}
 		}
 		c.Ops = append(c.Ops, op)
